@@ -28,6 +28,35 @@ pub mod c20;
 thread_local! {
     pub static LAST_PANIC: RefCell<String> = RefCell::new(String::new());
 }
+/// the most recent panic message of any thread (used where thread-locals are not available: thread-exit probes)
+pub static LAST_PANIC_ANY_THREAD: std::sync::Mutex<String> = std::sync::Mutex::new(String::new());
+
+/// Thread-exit probe: a closure that runs from the destructor of a thread-local of the calling thread, i.e. while the
+/// thread is shutting down. Install it BEFORE the thread's first library call: thread-locals are destroyed in
+/// reverse order of first use, so any per-thread state the library set up later is already gone when the closure
+/// runs — a library call made there must still work (applications do convert dates / compute times in `Drop`
+/// implementations of per-thread objects).
+pub struct AtExit(pub Option<Box<dyn FnOnce() + Send>>);
+impl Drop for AtExit {
+    fn drop(&mut self) {
+        if let Some(f) = self.0.take() {
+            f()
+        }
+    }
+}
+thread_local! {
+    static AT_EXIT: RefCell<AtExit> = RefCell::new(AtExit(None));
+}
+pub fn at_thread_exit(f: impl FnOnce() + Send + 'static) {
+    AT_EXIT.with(|a| a.borrow_mut().0 = Some(Box::new(f)));
+}
+/// catch_unwind without touching this thread's locals; Err carries the message recorded by the panic hook
+pub fn guarded_no_tls<T>(f: impl FnOnce() -> T) -> Result<T, String> {
+    match catch_unwind(AssertUnwindSafe(f)) {
+        Ok(r) => Ok(r),
+        Err(_) => Err(LAST_PANIC_ANY_THREAD.lock().map(|g| g.clone()).unwrap_or_default()),
+    }
+}
 
 thread_local! {
     /// an earlier sampled call (inputs + result) kept for the history-independence probe
